@@ -238,7 +238,7 @@ func VF_C20_Set(n, form int) {
 		xs[i] = kit.fresh("x" + string(rune('0'+i)))
 	}
 	stub := &stubNotation{col.List[any](nil).MakeFromArray(toAny(xs))}
-	collator := age.Collator[int64]().Make()
+	var collator age.CollatorLike[int64] = desc64Collator{}
 	var args []any
 	switch form {
 	case 0:
@@ -261,6 +261,14 @@ func VF_C20_Set(n, form int) {
 	w := col.Set[int64](nil).MakeFromArray(xs)
 	if form == 6 {
 		w = col.Set[int64](nil).Make()
+	}
+	if form == 4 || form == 5 {
+		// a collator passed to the constructor is the set's collator, whatever else is passed with it
+		w = col.Set[int64](nil).MakeWithCollator(collator)
+		for _, x := range xs {
+			w.AddValue(x)
+		}
+		vf.Assert("given-collator-is-used", g.GetCollator() == collator)
 	}
 	vf.BudgetReset()
 	vf.Assert("same-contents-and-order", eqVals(kit, g.AsArray(), w.AsArray()))
@@ -407,4 +415,21 @@ func VF_C20_Capacity(n, kind int) {
 	}
 	vf.BudgetReset()
 	vf.Reach("end")
+}
+
+// desc64Collator: the reverse of the natural order on int64 (a custom collator handed to a constructor).
+type desc64Collator struct{}
+
+func (desc64Collator) GetClass() age.CollatorClassLike[int64] { return nil }
+func (desc64Collator) CompareValues(a, b int64) bool          { return a == b }
+func (desc64Collator) GetDepth() int                          { return 0 }
+func (desc64Collator) GetMaximum() int                        { return 16 }
+func (desc64Collator) RankValues(a, b int64) age.Rank {
+	if a > b {
+		return age.LesserRank
+	}
+	if a < b {
+		return age.GreaterRank
+	}
+	return age.EqualRank
 }
